@@ -7,6 +7,7 @@ import (
 	"fmt"
 	"math/big"
 	"math/rand/v2"
+	"runtime"
 	"strings"
 	"sync"
 
@@ -476,6 +477,7 @@ func C01(run *mon.Run) {
 		}
 	}
 	c01HashToCurve(run, r)
+	c01RelatedExpansions(run, r)
 	// dedicated hunt for points whose x fits x+p < 2^381, so that the non-reduced
 	// encoding of the *accepted* point itself is always tried
 	for i := 0; i < run.Pick(3, 20); i++ {
@@ -606,6 +608,80 @@ func expandMessageXMDSHA256(msg, dst []byte, n int) []byte {
 //     (appendix J.9.1), reached through a hasher that returns expand_message_xmd of the message;
 //   - structural (RFC 9380 section 5.2/6.6.2): the image depends only on the two 64-byte halves reduced
 //     modulo p, is symmetric in the halves, and negating both field elements negates the point.
+//
+// c01RelatedExpansions: 128-byte hasher outputs that agree on a prefix, a suffix or everywhere but one
+// byte, hashed to the curve one right after the other on one OS thread (A, B, unrelated, B, A): the
+// image of an output depends on all of its 128 bytes and on nothing that was hashed before. (A memo, a
+// comparison of fewer bytes, a truncated copy of the expansion.)
+func c01RelatedExpansions(run *mon.Run, r *rand.Rand) {
+	runtime.LockOSThread()
+	defer runtime.UnlockOSThread()
+	cur := make([]byte, 128)
+	h := &fixedHasher{name: "related", size: 128, f: func(_ []byte, _ int) []byte { return append([]byte{}, cur...) }}
+	sk := skFromInt(randScalar(r))
+	pk := sk.PublicKey()
+	img := func(u []byte) []byte {
+		copy(cur, u)
+		sig, err := sk.Sign([]byte("m"), h)
+		if err != nil {
+			run.Violate("C01:related-expansions:sign-error", err.Error(), map[string]any{"uniform": mon.Hex(u)})
+			return nil
+		}
+		return sig
+	}
+	type pair struct {
+		kind string
+		a, b []byte
+	}
+	var pairs []pair
+	for _, k := range []int{1, 4, 8, 15, 16, 17, 31, 32, 47, 48, 63, 64, 65, 96, 112, 120, 126, 127} {
+		a := mon.RandBytes(r, 128)
+		a[0], a[64] = a[0]&0x0f, a[64]&0x0f // both field elements below p without reduction
+		b := append(append([]byte{}, a[:k]...), mon.RandBytes(r, 128-k)...)
+		b[64] &= 0x0f
+		pairs = append(pairs, pair{fmt.Sprintf("common-prefix-%d", k), a, b})
+		c := append(mon.RandBytes(r, 128-k), a[128-k:]...)
+		c[0], c[64] = c[0]&0x0f, c[64]&0x0f
+		pairs = append(pairs, pair{fmt.Sprintf("common-suffix-%d", k), a, c})
+		d := append([]byte{}, a...)
+		d[k] ^= 1 << uint(k%8)
+		pairs = append(pairs, pair{fmt.Sprintf("one-bit-at-byte-%d", k), a, d})
+	}
+	unrelated := mon.RandBytes(r, 128)
+	for _, pr := range pairs {
+		rep := map[string]any{"kind": pr.kind, "a": mon.Hex(pr.a), "b": mon.Hex(pr.b)}
+		_ = img(unrelated)
+		a1 := img(pr.a)
+		b1 := img(pr.b) // right after A
+		_ = img(unrelated)
+		b2 := img(pr.b) // after something unrelated
+		a2 := img(pr.a) // right after B
+		if a1 == nil || b1 == nil || b2 == nil || a2 == nil {
+			continue
+		}
+		run.Eval(4)
+		run.Count("related-expansions", 1)
+		if !bytes.Equal(b1, b2) || !bytes.Equal(a1, a2) {
+			run.Violate("C01:related-expansions:depends-on-previous-call", fmt.Sprintf("Sign with a hasher output B (%s with the previous output A) gives %x right after A and %x after an unrelated output; A gives %x / %x", pr.kind, b1, b2, a1, a2), rep)
+			continue
+		}
+		if bytes.Equal(a1, b1) {
+			run.Violate("C01:related-expansions:distinct-outputs-same-image", fmt.Sprintf("two different 128-byte hasher outputs (%s) are signed to the same signature %x", pr.kind, a1), rep)
+			continue
+		}
+		// and verification: the signature over A is not a signature over B (same order of calls)
+		copy(cur, pr.a)
+		okA, _ := pk.Verify(a1, []byte("m"), h)
+		copy(cur, pr.b)
+		okBA, _ := pk.Verify(a1, []byte("m"), h)
+		okB, _ := pk.Verify(b1, []byte("m"), h)
+		if !okA || !okB || okBA {
+			run.Violate("C01:related-expansions:verify", fmt.Sprintf("hasher outputs A, B (%s): Verify(sig_A | A) = %v, Verify(sig_A | B) = %v, Verify(sig_B | B) = %v", pr.kind, okA, okBA, okB), rep)
+		}
+		run.Shape("related-expansions|" + pr.kind)
+	}
+}
+
 func c01HashToCurve(run *mon.Run, r *rand.Rand) {
 	dst := []byte("QUUX-V01-CS02-with-BLS12381G1_XMD:SHA-256_SSWU_RO_")
 	msgs := []string{"", "abc", "abcdef0123456789", "q128_" + strings.Repeat("q", 128), "a512_" + strings.Repeat("a", 512)}
